@@ -315,6 +315,14 @@ theorem C09_mc_scan_rows_are_nested_independent_runs (w : Worker) (inner : List 
   | error e => rfl
   | ok c1 => rfl
 
+/-- `mc.scan_steady_state` under ANY schedule of the pool (worker count, assignment of samples to processes) returns what
+    a single process working through the samples in order returns — same rows, same order, same labels, same exception -/
+theorem C09_mc_scan_any_schedule (cf : Bool) (assign : List Nat) (n : Nat) (hn : 0 < n) (w : Worker)
+    (inner : List (Label × Row)) (c : Content) (samples : List (Label × Row)) :
+    mcScan cf assign n w inner c samples = mcScan cf [] 1 w inner c samples := by
+  unfold mcScan
+  rw [schedMap_eq_map assign n hn, schedMap_eq_map [] 1 (by omega)]
+
 /-- `mc.scan_steady_state`, parent side: the task's answer, unpickled next to the caller's model, IS the independent runs
     of the inner rows on the sample's model `c1` (in a heap that also holds the caller's model and the task's copy of
     it) — so `C09_rows_equal_independent_runs` applies verbatim to the views the parent reads: each equals the view of a
